@@ -1,8 +1,8 @@
 """C10 — queries never change the configuration."""
-import gens, grammar, gramlib
+import gens, grammar, gramlib, laylib
 from checklib import Scenario
 
-RULE = ("objects built by random setter histories or parsed from files with mixed-case / non-boolean / absent values, multi-line comments before keys and after values, or random conventional files; "
+RULE = ("objects built by random setter histories or parsed from files with mixed-case / non-boolean / absent values, multi-line comments before keys and after values, random conventional files, or results of layered reads; "
         "dump and written bytes before and after a random sequence of read-only calls (every typed, defaulted and "
         "extended getter incl. failing ones, listings, path, tags, write, use as merge input); distinct by model output")
 
@@ -27,7 +27,11 @@ def gen(rng, tier):
     out = []
     for _ in range(n):
         r0 = rng.random()
-        if r0 < 0.35:
+        if r0 < 0.12:
+            # the object under observation is the result of a layered read (such objects carry internal flags of their own)
+            st = laylib.setup(rng, mode=0)
+            cmds = [c for c in st["cmds"]] + [st["read"]]
+        elif r0 < 0.35:
             cmds = [gens.parse_cmd(0, b"/d/q.conf", rng.choice(FILES), b"=", rng.choice([b"#", b"#;"]))]
         elif r0 < 0.5:
             dl, cm = rng.choice([b"=", b" ", b":="]), rng.choice([b"#", b";"])
